@@ -596,14 +596,14 @@ def check_C12(sc, v, tier, seed, replay):
     sc.run("rec-build", ["-tier", "quick", "-out", os.path.join(sc.work, "b.ndjson"), "-schema", schema])
     # (1) termination model: the walk as the code performs it; a counterexample is a lead
     leads = []
-    for policy in ("asCoded", "stopOnUnknown"):
+    for policy in ("noAdvanceOnUnknown", "stopOnUnknown"):
         d = sc.specdir()
         cfg = ("CONSTANTS MaxLen = 4 Policy = \"%s\"\nSPECIFICATION Spec\nPROPERTY Terminates\nPROPERTY Progress\nINVARIANT Bounded\nCHECK_DEADLOCK FALSE\n" % policy)
         r = vlib.run_tlc(d, "PduExtract", cfg, name="MCExtract-" + policy, timeout=900, workers=vlib.NCPU, heap="8g")
         v.add_tlc([r])
         if policy == "stopOnUnknown" and not r.ok:
             raise HarnessError("PduExtract with the terminating policy violates its own properties: " + r.error)
-        if policy == "asCoded" and not r.ok:
+        if policy == "noAdvanceOnUnknown" and not r.ok:
             m = re.findall(r"input = <<([0-9, ]*)>>", r.out)
             for s in m[-1:]:
                 leads.append([int(x) for x in s.split(",") if x.strip()])
